@@ -72,6 +72,43 @@ def seed_deps(fa: FA, dep: Deps, gen: Term) -> Tuple[Optional[Term], Set[str], L
     return seed, attrs, others
 
 
+def _only_behind_alternative(seed: Term, leaf: Term) -> Optional[Term]:
+    """The 'a or b' / conditional sub-term that hides every occurrence of ``leaf`` in one of its arms while another arm does not
+    mention it (so the value does not depend on the leaf whenever that other arm is taken); None if the leaf also occurs outside."""
+    def occurs(t):
+        return any(x == leaf or (x[0] == "var" and x[1] == f"self.{leaf[1]}") for x in subterms(t) if x) or t == leaf
+
+    def walk(t) -> Tuple[bool, Optional[Term]]:
+        """-> (leaf occurs unconditionally in t, a hiding alternative)"""
+        if not isinstance(t, tuple) or not t:
+            return False, None
+        if t == leaf or (t[0] == "var" and t[1] == f"self.{leaf[1]}"):
+            return True, None
+        if t[0] == "or" and all(isinstance(x, tuple) for x in t[1]) and len(t[1]) >= 2 and not occurs(t[1][0]) and any(
+                occurs(x) for x in t[1][1:]):
+            return False, t
+        if t[0] == "ifexp" and (occurs(t[2]) != occurs(t[3])) and not occurs(t[1]):
+            return False, t
+        free, hid = False, None
+        for x in t[1:]:
+            if isinstance(x, tuple) and x and isinstance(x[0], str):
+                f_, h_ = walk(x)
+                free, hid = free or f_, hid or h_
+            elif isinstance(x, tuple):
+                for y in x:
+                    if isinstance(y, tuple) and y and isinstance(y[0], str):
+                        f_, h_ = walk(y)
+                        free, hid = free or f_, hid or h_
+                    elif isinstance(y, tuple):
+                        for z in y:
+                            if isinstance(z, tuple) and z and isinstance(z[0], str):
+                                f_, h_ = walk(z)
+                                free, hid = free or f_, hid or h_
+        return free, hid
+    free, hid = walk(seed)
+    return hid if (hid is not None and not free) else None
+
+
 def set_epoch_attr(prog: Program, C: ClassInfo) -> Optional[str]:
     fi = C.lookup("set_epoch")
     if fi is None:
@@ -103,7 +140,7 @@ def run(prog: Program, rep: Report, tier: str):
     n_draws = 0
     for cname, (rank_a, world_a) in RANKED.items():
         C = prog.cls(cname)
-        fi = C.methods.get("__iter__")
+        fi = prog.concrete_method(C, "__iter__")
         rep.require(fi is not None, f"anchor-missing: {cname}.__iter__")
         fa = fa_of(prog, fi)
         dep = Deps(fa)
@@ -144,6 +181,11 @@ def run(prog: Program, rep: Report, tier: str):
                 problems.append("does not depend on self.seed")
             if ep_attr not in attrs:
                 problems.append(f"does not depend on self.{ep_attr} (set_epoch does not change the draw)")
+            hidden = _only_behind_alternative(seed, ("self", ep_attr))
+            if ep_attr in attrs and hidden:
+                problems.append(f"self.{ep_attr} occurs only inside the fall-back arm of '{show(hidden)[:60]}' (operator precedence: "
+                                f"'a or b + c' is 'a or (b + c)'): for a non-zero seed the epoch is ignored and every epoch "
+                                f"yields the same draw")
             rankish = sorted(a for a in attrs if a in (rank_a, world_a, "rank", "world_size", "num_replicas"))
             if rankish:
                 problems.append(f"depends on self.{', self.'.join(rankish)}: ranks draw different permutations, their "
@@ -179,6 +221,26 @@ def run(prog: Program, rep: Report, tier: str):
                             cut = cut or up == ("call", ("global", "len"), (("self", "dataset"),), ())
             kw_ok = any(k.arg == "repeats" and fa.sym.term(k.value, rn) == ("self", "num_repeats") for k in reps[0][1].keywords) \
                 or (reps[0][1].args and fa.sym.term(reps[0][1].args[0], rn) == ("self", "num_repeats"))
+            # a draw shortened *before* it is repeated must still fill the dataset length: perm[:T] with T = ceil(len / repeats)
+            recv = reps[0][1].func.value if isinstance(reps[0][1].func, ast.Attribute) else None
+            recv = fa.expand(recv, rn) if recv is not None else None
+            if isinstance(recv, ast.Subscript) and isinstance(recv.slice, ast.Slice) and recv.slice.lower is None and \
+                    recv.slice.step is None and recv.slice.upper is not None:
+                T = fa.sym.term(fa.expand(recv.slice.upper, rn), rn)
+                size_t = ("call", ("global", "len"), (("self", "dataset"),), ())
+                reps_t = ("self", "num_repeats")
+                okT = None
+                whyT = f"the draw is shortened to {show(T)[:60]} entries before it is repeated: not decided"
+                if T[0] == "call" and T[1][0] == "global" and T[1][1].endswith("ceil") and len(T[2]) == 1 and \
+                        T[2][0][0] == "binop" and T[2][0][1] == "/":
+                    num, den = T[2][0][2], T[2][0][3]
+                    if num == size_t or (num[0] == "var" and fa.sym.term(fa.expand(ast.Name(num[1], ast.Load()), rn), rn) == size_t):
+                        okT = den == reps_t
+                        whyT = ("the draw is shortened to ceil(len(dataset) / num_repeats) entries before it is repeated" if okT else
+                                f"the draw is shortened to ceil(len(dataset) / {show(den)}) entries before it is repeated num_repeats "
+                                f"times: the repeated draw no longer fills the dataset length (too few distinct samples per epoch; the "
+                                f"remainder is filled by wrapping around)")
+                rep.decide(okT, "G8.repeat-before-split", fi, "pre-repeat-cut", whyT, whyT, line=fa.line(rn), clause="C12.5")
             rep.decide(dom and cut and kw_ok, "G8.repeat-before-split", fi, "repeat",
                        "repeat_interleave(num_repeats)[:len(dataset)] dominates the rank split",
                        "; ".join(x for x in (None if dom else "repeat_interleave does not precede the rank split",
@@ -190,7 +252,7 @@ def run(prog: Program, rep: Report, tier: str):
     rank_queries_not_memoised(prog, rep, clause="C12.2")
     # RandomSampler (not rank-aware): the repeat path keeps the explicit generator and repeats before cutting
     C = prog.cls("RandomSampler")
-    fi = C.methods.get("__iter__")
+    fi = prog.concrete_method(C, "__iter__")
     if fi is not None:
         fa = fa_of(prog, fi)
         rep.analysed_add("functions", f"{fi.module.relpath}:{fi.qualname}")
@@ -258,13 +320,25 @@ def rank_split_rules(prog: Program, rep: Report, C: ClassInfo, fi: FuncInfo, fa:
                 t = fa.sym.term(nd.ast, n)
                 if t[0] == "eq" and contains(t, ("self", "num_samples")):
                     trunc.add(n)
+        # ... or the global draw is cut to len(self) * world size before an open-ended split [rank::world]: every rank then
+        # gets exactly len(self) entries
+        pre = set()
+        want_pre = term_to_poly(("call", ("global", "len"), (("param", fa.self_name),), ())) * term_to_poly(("self", world_a))
+        for n in sorted(fa.cfg.nodes):
+            for x in fa.cfg.walk_node(n):
+                if isinstance(x, ast.Subscript) and isinstance(x.slice, ast.Slice) and x.slice.step is None \
+                        and x.slice.lower is None and x.slice.upper is not None:
+                    if term_to_poly(fa.sym.term(x.slice.upper, n)) == want_pre:
+                        pre.add(n)
         # every rank split (a fast path may have its own) must be followed by the cut on every path to a yield it feeds
-        ok = bool(trunc)
+        ok = bool(trunc) or bool(pre)
         any_y = False
         for sn_, _x in splits:
             ys_ = [y for y in ys if fa.cfg.reachable(sn_, y) or y == sn_]
             any_y = any_y or bool(ys_)
-            ok = ok and all(y in trunc or sn_ in trunc or (y != sn_ and fa.cfg.must_pass(trunc, src=sn_, dst=y)) for y in ys_)
+            cut_before = bool(pre) and _x.slice.upper is None and fa.cfg.must_pass(pre, src=fa.cfg.entry, dst=sn_) and sn_ not in pre
+            ok = ok and (cut_before or all(y in trunc or sn_ in trunc or (
+                y != sn_ and fa.cfg.must_pass(trunc, src=sn_, dst=y)) for y in ys_))
         ok = ok and any_y
         rep.decide(ok, "G9.rank-split", fi, "truncate", "per-rank list cut to len(self) before it is yielded",
                    "the per-rank list is yielded without being cut to len(self): ranks whose slice is one longer "
@@ -312,7 +386,7 @@ def padding_rule(prog: Program, rep: Report):
              "count k is the ceiling of p / len(indices) (math.ceil(p / n), (p + n - 1) // n or p // n + 1) - with the floor "
              "p // n the padded list is too short whenever n does not divide p")
     C = prog.cls("DistributedSampler")
-    fi = C.methods.get("__iter__")
+    fi = prog.concrete_method(C, "__iter__")
     fa = fa_of(prog, fi)
     found = 0
     for n in sorted(fa.cfg.nodes):
